@@ -135,6 +135,14 @@ Exec ==
               ELSE IF \E i \in (Len(stack) - loop + 1)..Len(stack) : stack[i] < 0 \/ stack[i] >= NPoints
                    THEN Halt([S0 EXCEPT !.loop = 1], "InvalidPointIndex")
               ELSE [next EXCEPT !.stack = SubSeq(stack, 1, Len(stack) - loop), !.loop = 1]
+         \* arithmetic / rounding / point-moving opcodes (arg = opcode byte): only their stack effect is modelled; the
+         \* interesting part is what the real arithmetic does with extreme operands (C20)
+         [] ins.op = "A1" -> IF stack = <<>> THEN Halt(S0, "ValueStackUnderflow") ELSE [next EXCEPT !.stack = Append(Pop1, 0)]
+         [] ins.op = "A2" -> IF Len(stack) < 2 THEN Halt(S0, "ValueStackUnderflow") ELSE [next EXCEPT !.stack = Append(Pop2, 0)]
+         [] ins.op = "P0" -> next
+         [] ins.op = "P5" -> IF Len(stack) < 5 THEN Halt(S0, "ValueStackUnderflow") ELSE [next EXCEPT !.stack = SubSeq(stack, 1, Len(stack) - 5)]
+         [] ins.op = "P1" -> IF stack = <<>> THEN Halt(S0, "ValueStackUnderflow") ELSE [next EXCEPT !.stack = Pop1]
+         [] ins.op = "P2" -> IF Len(stack) < 2 THEN Halt(S0, "ValueStackUnderflow") ELSE [next EXCEPT !.stack = Pop2]
          [] OTHER -> Halt(S0, "UnhandledOpcode")
 
 Step ==
